@@ -149,6 +149,10 @@ def nd_eligible(rec):
         v = a.get(kind)
         if isinstance(v, list):
             touched |= {t for t, _ in v}
+            for _, val in v:
+                nums = val if isinstance(val, list) else [val]
+                if any(isinstance(x, (int, float)) and abs(x) > 1e6 for x in nums):
+                    return False       # magnitudes that absorb O(1) noise in floating point: equality is legitimate
     if api == "lganm.sample":
         var = dec(spec["variances"])
         p = len(dec(spec["W"]))
